@@ -4,7 +4,9 @@
       multi <ce> <s> <ce> <s> .. a template with several slots, results joined by a bar
       table <c> <e>              decision table entry and its witness
     <c> is a (attribute in double quotes) or t (element text); <e> is 0 (no escaping),
-    1 (saxutils.escape), 2 (escape with the quot entity), 3 (not caller text). *)
+    3 (not caller text), or a capital letter A..P = saxutils.escape with the dictionary whose
+    entries are the bits of (letter - A): 8 quote, 4 TAB, 2 LF, 1 CR (A = plain escape,
+    I = quote only, P = all four); 1 and 2 are kept as synonyms of A and I. *)
 From V.lib Require Import Prelude Wire.
 From V.model Require Import Escape.
 
@@ -21,7 +23,11 @@ Definition parse_ctx (f : str) : option ctx :=
   end.
 Definition parse_esc_c (c : N) : option esc :=
   if N.eqb c 48 then Some EscNone else if N.eqb c 49 then Some EscSax
-  else if N.eqb c 50 then Some EscSaxQuot else if N.eqb c 51 then Some NotText else None.
+  else if N.eqb c 50 then Some EscSaxQuot else if N.eqb c 51 then Some NotText
+  else if (N.leb 65 c && N.leb c 80)%bool then
+    let b := (c - 65)%N in
+    Some (EscSaxWith (N.testbit b 3) (N.testbit b 2) (N.testbit b 1) (N.testbit b 0))
+  else None.
 Definition parse_esc (f : str) : option esc :=
   match f with [c] => parse_esc_c c | _ => None end.
 
